@@ -286,9 +286,14 @@ func TestVerif(t *testing.T) {
 			Mode  string `json:"mode"`
 			Agent bool   `json:"agent"`
 			AMode string `json:"agentmode"`
+			User  string `json:"user"`
 		}
 		if err := dec.Decode(&c); err != nil {
 			t.Fatal(err)
+		}
+		user := c.User
+		if user == "" {
+			user = "alice"
 		}
 		srv := servers[c.Mode]
 		home, _ := os.MkdirTemp(os.Getenv("VERIF_WORK"), "home")
@@ -299,11 +304,11 @@ func TestVerif(t *testing.T) {
 			ag = &vcAgent{Agent: agent.NewKeyring(), mode: c.AMode}
 			// what an agent that has been in use holds: certificates left over under the labels the client is about to
 			// use - one of them already expired, never given an agent lifetime - and a certificate of another tool
-			for _, lbl := range []string{"keymaster-" + c.Pref + "-alice", "keymaster-ed25519-alice", "other-tool-alice"} {
+			for _, lbl := range []string{"keymaster-" + c.Pref + "-" + user, "keymaster-ed25519-" + user, "other-tool-alice"} {
 				vcSeedAgent(ag.Agent, lbl, lbl != "other-tool-alice" && strings.Contains(lbl, c.Pref))
 			}
 			// ... and a second leftover under the main label (two overlapping earlier runs, or ssh-add of the fallback files)
-			vcSeedAgent(ag.Agent, "keymaster-"+c.Pref+"-alice", false)
+			vcSeedAgent(ag.Agent, "keymaster-"+c.Pref+"-"+user, false)
 			sock := filepath.Join(home, "agent.sock")
 			lst = vcServeAgent(sock, ag)
 			os.Setenv("SSH_AUTH_SOCK", sock)
@@ -330,7 +335,7 @@ func TestVerif(t *testing.T) {
 			}
 			rec := &vcRecorder{inner: client.Transport}
 			client.Transport = rec
-			lines, gaps := []string{"pw-alice\n"}, []time.Duration{0}
+			lines, gaps := []string{"pw-" + user + "\n"}, []time.Duration{0}
 			if c.Mode == "totp" {
 				// one code per 30 s period (replay guard) and 2 s spacing (limiter): every further use waits for a new period
 				if totpUsed {
@@ -343,7 +348,7 @@ func TestVerif(t *testing.T) {
 			restore := vcPipeStdin(lines, gaps)
 			FilePrefix = "keymaster"
 			cfg := config.AppConfigFile{Base: config.BaseConfig{Gen_Cert_URLS: srv.URL, PreferredKeyType: c.Pref, FilePrefix: "keymaster"}}
-			err = setupCerts("alice", home, cfg, client, logger)
+			err = setupCerts(user, home, cfg, client, logger)
 			restore()
 			if err != nil {
 				errText = err.Error()
@@ -476,7 +481,7 @@ func TestVerif(t *testing.T) {
 		}
 		sort.Slice(files, func(a, b int) bool { return files[a]["path"].(string) < files[b]["path"].(string) })
 		firstOK := runs[0]["ok"].(bool)
-		enc.Encode(map[string]interface{}{"i": n, "ev": "ClientRun", "case": map[string]interface{}{"pref": c.Pref, "mode": c.Mode, "agent": c.Agent, "agentmode": c.AMode},
+		enc.Encode(map[string]interface{}{"i": n, "ev": "ClientRun", "case": map[string]interface{}{"pref": c.Pref, "mode": c.Mode, "agent": c.Agent, "agentmode": c.AMode, "user": user},
 			"out": map[string]interface{}{"ok": firstOK, "bothRoundsOk": len(runs) == 2 && runs[1]["ok"].(bool), "error": errText, "requests": nreq,
 				"privateKeysKnown": len(privs), "wirePrivHits": hits, "publicHalvesSeenOnWire": pubSeen, "files": files, "agentLabels": labels, "addedBeside": addedBeside,
 				"ownLabels": func() int {
